@@ -84,6 +84,7 @@ structure RingInv (g : G) : Prop where
   shape : Shape g.s.sp
   linked : Linked g.log (logical g.s.sp)
   roundBnd : ∀ o ∈ g.s.sp.obs, 1 ≤ o.round ∧ o.round ≤ g.s.round
+  accPos : ∀ o ∈ g.s.sp.obs, 0 < o.accS
   lastLe : g.s.sp.last.round ≤ g.s.round
   live : g.s.sp.obs ≠ [] → 0 < g.s.r1 ∧ 0 < g.s.r2 ∧ 0 < g.s.S
   current : g.s.sp.obs ≠ [] →
